@@ -21,7 +21,7 @@ use verifsim::rng::{Fnv, Rng};
 
 pub const MAIN: usize = usize::MAX;
 pub const N_SITES: usize = 19;
-pub const STEP_CAP: u64 = 100_000;
+pub const STEP_CAP: u64 = 250_000;
 /// no progress of the turn holder for this long AND its OS thread asleep in the kernel (state `S`
 /// in /proc/self/task/<tid>/stat, in four consecutive samples 400 us apart) = it is blocked in a primitive of the library.
 /// A turn holder that is merely descheduled stays in state `R` and is never mistaken for stalled.
